@@ -1512,7 +1512,7 @@ def compile_hessian(
             if is_full:
 
                 def hess_exp(x):
-                    return np.diag(np.exp(x))
+                    return _sanitize_derivatives(np.diag(np.exp(x)))
 
                 return hess_exp
             else:
@@ -1520,7 +1520,7 @@ def compile_hessian(
                 def hess_exp_sparse(x):
                     result = np.zeros((n, n))
                     result[indices, indices] = np.exp(x[indices])
-                    return result
+                    return _sanitize_derivatives(result)
 
                 return hess_exp_sparse
 
